@@ -130,29 +130,39 @@ def c_function(idx: int, text: str, ops: list[dict], exports=()) -> str:
 
 
 def subroutine_c(sr: dict) -> str:
-    """sr: name -> {return_type, params, code} (the JSON shape of sub_routines.json)."""
-    out, protos = [], []
+    """sr: name -> {return_type, params, code} (the JSON shape of sub_routines.json).
+    A `const HexOp *Rx` parameter is by-reference: the C function takes a pointer and a macro of the
+    sub-routine's name passes the address of the caller's register variable."""
+    out, protos, macros = [], [], []
     for name, r in sr.items():
         params = []
         body = r["code"]
-        for p in r["params"]:
+        byref = []
+        pnames = []
+        for k, p in enumerate(r["params"]):
+            pn = re.findall(r"\w+", p)[-1]
+            pnames.append(pn)
             if "HexInsnPktBundle" in p:
                 params.append("void *bundle")
             elif "HexOp" in p:
-                pn = re.findall(r"\w+", p)[-1]
+                byref.append(k)
                 params.append(f"int32_t *{pn}_p")
                 body = re.sub(rf"\b{pn}\b", f"(*{pn}_p)", body)
             elif "HexRegField" in p:
-                params.append("int " + re.findall(r"\w+", p)[-1])
+                params.append("int " + pn)
             elif "HexPkt" in p:
-                params.append("void *" + re.findall(r"\w+", p)[-1])
+                params.append("void *" + pn)
             else:
                 params.append(p)
-        fn = name + ("_impl" if name == "fcirc_add" else "")
+        fn = name + ("_impl" if byref else "")
+        if byref:
+            formal = [f"a{k}" for k in range(len(pnames))]
+            actual = [f"&({a})" if k in byref else a for k, a in enumerate(formal)]
+            macros.append(f"#define {name}({', '.join(formal)}) {fn}({', '.join(actual)})")
         sig = f"static {r['return_type']} {fn}({', '.join(params)})"
         protos.append(sig + ";")
         out.append(sig + " " + body)
-    return "\n".join(protos) + "\n" + "\n".join(out) + "\n"
+    return "\n".join(protos) + "\n" + "\n".join(out) + "\n" + "\n".join(macros) + "\n"
 
 
 PRELUDE = r"""
@@ -218,7 +228,6 @@ static uint32_t REGFIELD(int prop, int field){ static const int t[3][2] = {{0,1}
 static int32_t get_corresponding_CS(void *p, int32_t Mu){ return (int32_t)S.cs; }
 static uint32_t get_npc(void *p){ return S.npc; }
 static void fatal(const char *m){ }
-#define fcirc_add(b, Rx, off, M, CS) fcirc_add_impl(b, &(Rx), off, M, CS)
 
 enum { RZ_FLOAT_IEEE754_BIN_32, RZ_FLOAT_IEEE754_BIN_64 };
 enum { RZ_FLOAT_RMODE_RNE, RZ_FLOAT_RMODE_RTZ };
